@@ -142,6 +142,15 @@ func HarnessC15NotRepeated() {
 		rep = "  " + strings.ReplaceAll(rep, " ", "  ") + " "
 	}
 	block := []string{"<h1>%s</h1>", "<h2>%s</h2>", "<p>%s</p>", "<div><b>%s</b></div>"}[vx.Choose("block", 4)]
+	// inline markup inside the repeated title, also in the middle of a word
+	switch vx.Choose("inline", 4) {
+	case 1:
+		rep = strings.Replace(rep, "Alpha", "Al<b>pha</b>", 1)
+	case 2:
+		rep = strings.Replace(rep, "Alpha", "<span>A</span>lpha", 1)
+	case 3:
+		rep = strings.Replace(rep, "Beta", "<em>Beta</em>", 1)
+	}
 	block = strings.Replace(block, "%s", rep, 1)
 	para := `<p>` + strings.Repeat("filler words for the article body ", 8) + `</p>`
 	headTitle := sh[0]
